@@ -210,7 +210,7 @@ def run_shard(spec, rec):
             rec.feat("case:lazy-failure")
         else:
             q = gen.query(root="$")
-            doc = D.doc_for(R, q, maxdepth=4, maxwidth=4)
+            doc = D.doc_for(R, q, maxdepth=4, maxwidth=4, feat=rec.features)
             rec.feat("case:generated")
         text = G.render(q, R, ws=R.choice(["none", "sparse"]), feat=rec.features)
         texts = [text]
